@@ -8,6 +8,7 @@
 -/
 import RbpfModel.Generated.InterpMem
 import RbpfModel.Model.Interp
+import RbpfModel.Lemmas.InterpMemAux
 namespace Rbpf
 open Rbpf.Generated
 
@@ -32,6 +33,7 @@ theorem InterpMem_exec (env : Env) (s : State) (i : Insn) (h : i.opc.toNat ∈ m
          else if a.kind = 1 then Interp.store env s addr a.checkWidth v
          else Interp.xadd env s addr a.checkWidth v
        | _, _ => .panic) := by
-  sorry
+  obtain ⟨opc, dst, src, off, imm⟩ := i
+  exact InterpMemAux.im_all h hd hs hb
 
 end Rbpf
